@@ -925,6 +925,11 @@ class TermBuilder:
                     and fn[1][0] in ('call', 'sub', 'bin', 'v') and not (fn[1][0] == 'v' and fn[1][2] == 'P' and fn[1][1] == 'self'):
                 # X.sum() is numpy.sum(X) for the arrays this package handles (lists have no such methods)
                 return simplify_call(('call', ('g', 'numpy.' + fn[2]), (fn[1],), kws))
+            if fn == ('g', 'numpy.diff') and len(args) == 1 and not kws:
+                # diff(X) is X[1:] - X[:-1] for the 1-D arrays this package handles
+                nx = ('sub', args[0], ('slice', ('c', 1), ('c', None), ('c', None)))
+                cu = ('sub', args[0], ('slice', ('c', None), ('c', -1), ('c', None)))
+                return ('bin', '-', nx, cu)
             if fn == ('g', 'numpy.count_nonzero') and len(args) == 1 and not kws and args[0][0] == 'cmp':
                 return ('call', ('g', 'builtins.len'), (('sub', ('call', ('g', 'numpy.where'), (args[0],), ()), ('c', 0)),), ())
             inl = self.inline_call(e, fn, args, kws)
@@ -966,6 +971,9 @@ class TermBuilder:
                 bound[a.arg] = ('b', base + i)
             tb = TermBuilder(self.f, self.nid, self.out, bound, self.depth, self.pbound, self.memo)
             return ('lambda', len(e.args.args), tb.build(e.body))
+        if isinstance(e, ast.JoinedStr) and len(e.values) == 1 and isinstance(e.values[0], ast.FormattedValue) and \
+                e.values[0].conversion in (-1, 115) and e.values[0].format_spec is None:
+            return ('call', ('g', 'builtins.str'), (b(e.values[0].value),), ())       # f"{x}" is str(x)
         if isinstance(e, ast.JoinedStr):
             return ('fstr',) + tuple(b(v) for v in e.values)
         if isinstance(e, ast.FormattedValue):
